@@ -1330,8 +1330,14 @@ func GenerateWrappers(pkg *packages.Package, cs *ContractSet) (string, []string)
 	sort.Strings(paths)
 	// only what the generated wrappers actually mention
 	var used []string
+	var code []byte
+	for _, l := range bytes.Split(g.buf.Bytes(), []byte("\n")) {
+		if !bytes.HasPrefix(bytes.TrimSpace(l), []byte("//")) {
+			code = append(append(code, l...), '\n')
+		}
+	}
 	for _, p := range paths {
-		if regexp.MustCompile(`(^|[^A-Za-z0-9_.])`+regexp.QuoteMeta(g.imports[p])+`\.`).Match(g.buf.Bytes()) {
+		if regexp.MustCompile(`(^|[^A-Za-z0-9_."])`+regexp.QuoteMeta(g.imports[p])+`\.`).Match(code) {
 			used = append(used, p)
 		}
 	}
